@@ -93,7 +93,11 @@ Section CompileWall.
 
   Definition HP : Prop := Q WPanic.
 
-  Ltac wprim := apply Wall_prim; [cbn; tauto|auto].
+  Ltac wprim :=
+    apply Wall_prim;
+    [exact (fun x : False => x)
+    |first [apply Qkw|apply Qraw|apply Qlit|apply Qnum|apply Qarg|apply Qbind|apply Qident|apply Qtype|apply Qpretty
+           |exact Qe1|exact Qe2|exact Qe3|exact Qe4|exact Qev|assumption]].
 
   Ltac wstep :=
     match goal with
@@ -162,7 +166,7 @@ Section CompileWall.
     Proof. intro H. unfold c_obc. wsolve; assumption. Qed.
 
     Lemma W_fromitem i : Wall Q (f (fi_from i)) -> Wall Q (c_fromitem V f i).
-    Proof. intro H. unfold c_fromitem. destruct (fi_lateral i && fi_only i); wsolve; assumption. Qed.
+    Proof. intro H. unfold c_fromitem. wsolve; assumption. Qed.
 
     Lemma W_set l : Forall (fun x => Wall Q (f x)) l -> Wall Q (c_set V f l).
     Proof.
@@ -381,17 +385,13 @@ Section CompileWall.
           eapply Forall_impl; [|apply (Hrows rows eq_refl)]. intros a Ha. cbn beta. wsolve. assumption.
         - wsolve. now apply Hq. }
       cbv zeta.
-      destruct (opt_nonnil (i_values b) && negb (is_nil (i_query b))).
-      { apply Wall_seq. apply Forall_app. split; [exact Hhead|wsolve]. }
+      assert (Hconf : Wall Q (when V (opt_nonnil (i_values b) && negb (is_nil (i_query b))) [WErr EkValuesQuery])) by wsolve.
       destruct (negb (nonempty (i_caction b))).
       { apply Wall_seq. apply Forall_app. split; [exact Hhead|].
-        apply Forall_cons; [exact Hbody|]. apply Forall_cons; [|apply Forall_nil].
+        apply Forall_cons; [exact Hconf|]. apply Forall_cons; [exact Hbody|]. apply Forall_cons; [|apply Forall_nil].
         apply W_returning. now apply lift_out. }
-      destruct (nonempty (i_cconstraint b) && nonnil (i_ctargets b)).
-      { apply Wall_seq. apply Forall_app. split; [exact Hhead|].
-        apply Forall_app. split; [apply Forall_cons; [exact Hbody|apply Forall_nil]|]. wsolve. }
       apply Wall_seq. apply Forall_app. split; [exact Hhead|].
-      apply Forall_app. split; [apply Forall_cons; [exact Hbody|apply Forall_nil]|].
+      apply Forall_app. split; [apply Forall_cons; [exact Hconf|apply Forall_cons; [exact Hbody|apply Forall_nil]]|].
       apply Forall_app. split; [wsolve|].
       wsolve.
       - now apply lift_forall.
